@@ -20,7 +20,7 @@ import numpy as np
 import core
 
 PROP = "C18"
-IMPORTS = "C18.Model"
+IMPORTS = "C18.Model C18.Spec"
 SHARD = 6
 RULE = ("method in {MMDCritic, ProtoDash, ProtoGreedy}; data: uniform dyadic grid / clustered / far-apart sites with "
         "duplicates (0/1 kernel matrix, exact ties), N in 1..14 (ProtoDash <= 12 with <= 7 prototypes, ProtoGreedy <= 8 with <= 5 prototypes: exact inverses), d in 1..3, gamma in "
@@ -362,6 +362,8 @@ def coq_term(case, res):
              f"check_global {cmethod(case)} {core.cq(EPS32)} {K} {core.cnat(bs)} {core.cnat(nproto)} {core.cnat(ncmp)} "
              f"{cpairs(res['indices'])} {core.cbool(g['cmpw'])} {tolw} {core.cqlist(res['weights'])} "
              f"{core.cbool(cmpt)} {core.cq(TOL_T)} {core.cqlist2(res['col_means'] or [])} {core.cqlist2(res['diag'] or [])}"]
+    # Model = Spec on this case (tables = dense column means / diagonal; batched selection = dense greedy)
+    parts.append(f"check_spec {cmethod(case)} {core.cq(EPS32)} {K} {core.cnat(bs)} {core.cnat(nproto)}")
     if res["second"] is not None:
         s = res["second"]
         parts.append(f"check_cross {core.cnat(bs)} {core.cnat(s['bs_eff'])} {core.cnat(ncmp)} {cpairs(res['indices'])} "
@@ -434,3 +436,31 @@ def shrink(case):
         c = copy.deepcopy(case)
         c["distance"] = None
         yield c
+
+
+# ----------------------------------------------------------------------------- separate probe (not in the main stream)
+def probe_custom_kernel():
+    """known finding on the unchanged tree: a custom `kernel_fn` crashes (nb_features only set in the default-kernel
+    path of ProtoGreedySearch).  Reported in the evidence, never a verdict."""
+    import tensorflow as tf
+    import xplique.example_based as eb
+    X = np.array([[0.0, 0.5], [1.0, -0.5], [0.25, 2.0], [-1.0, 0.0]], dtype=np.float32)
+
+    def kern(a, b):
+        return tf.exp(-0.5 * tf.reduce_sum(tf.square(a[:, None, :] - b[None, :, :]), axis=-1))
+    out = {}
+    for name in METHODS.values():
+        try:
+            m = getattr(eb, name)(X, nb_global_prototypes=2, batch_size=2, kernel_fn=kern)
+            out[name] = dict(ok=True, indices=np.asarray(m.get_global_prototypes()["prototypes_indices"]).tolist())
+        except Exception as e:  # noqa: BLE001
+            out[name] = dict(ok=False, error=f"{type(e).__name__}: {e}"[:300])
+    return out
+
+
+def extra_checks(tier):
+    try:
+        EXTRA_COVERAGE["probe_custom_kernel_fn"] = probe_custom_kernel()
+    except Exception as e:  # noqa: BLE001
+        EXTRA_COVERAGE["probe_custom_kernel_fn"] = dict(error=str(e)[:300])
+    return []
